@@ -124,6 +124,54 @@ def gen_workload(rng, idx):
 
 
 # ---------------------------------------------------------------------------------------------
+# attribution: what each call *observed* of the process-wide context configuration
+# ---------------------------------------------------------------------------------------------
+_MON = {"installed": False, "logs": {}, "solo": None}
+
+
+def install_config_monitor():
+    """Wraps pandera.config.get_config_context (in every module that imported it by name) with a recorder of
+    (calling function, returned configuration) per simulated call.  The wrapper lives outside pandera/, so it adds no
+    pre-emption point and the step count of a run is the same with and without it.  Used only to *attribute* a divergence:
+    if a call observed a configuration value it does not observe when run alone, before its control flow diverged in any
+    other way, the divergence is the known process-global-configuration race (C07-K01/K02); otherwise it is something else."""
+    if _MON["installed"]:
+        return
+    import sys
+    import threading
+    from pandera import config as pconfig
+    orig = pconfig.get_config_context
+
+    def get_config_context(*a, **kw):
+        r = orig(*a, **kw)
+        st = getattr(threading.current_thread(), "_sim", None)
+        key = st.tid if st is not None else _MON["solo"]
+        if key is not None:
+            _MON["logs"].setdefault(key, []).append(
+                (sys._getframe(1).f_code.co_name, r.validation_enabled, getattr(r.validation_depth, "name", None),
+                 r.cache_dataframe, r.keep_cached_dataframe))
+        return r
+
+    get_config_context.__wrapped__ = orig
+    for name, mod in list(sys.modules.items()):
+        if name.startswith("pandera") and mod is not None:
+            for attr, val in list(vars(mod).items()):
+                if val is orig:
+                    setattr(mod, attr, get_config_context)
+    _MON["installed"] = True
+
+
+def config_interference(solo_log, conc_log):
+    """True iff the first point at which the two observation sequences differ is a *value* difference at the same
+    reading site (same calling function): the call saw another call's configuration."""
+    for a, b in zip(solo_log, conc_log):
+        if a == b:
+            continue
+        return a[0] == b[0]
+    return False
+
+
+# ---------------------------------------------------------------------------------------------
 # execution
 # ---------------------------------------------------------------------------------------------
 def _validate(subject, data, mode):
@@ -179,13 +227,19 @@ def call_fn(subject, frame, call, thread_local):
 
 
 def sequential_reference(wl):
-    """Each call alone on freshly built objects."""
-    ref = []
+    """Each call alone on freshly built objects: (outcome, state of the caller's frame after the call)."""
+    ref, ref_frames = [], []
+    _MON["logs"] = {}
     for i, c in enumerate(wl["calls"]):
         subs, frames = build_objects(wl)
-        out = call_fn(subs[c["subject"]], frames[i], c, False)()
+        _MON["solo"] = ("solo", i)
+        try:
+            out = call_fn(subs[c["subject"]], frames[i], c, False)()
+        finally:
+            _MON["solo"] = None
         ref.append(out.canon)
-    return ref
+        ref_frames.append(canon_obj(frames[i]))
+    return ref, ref_frames
 
 
 def sequential_order(wl, order):
@@ -203,8 +257,9 @@ def run_workload(wl, policy_or_rng, want_detail=False):
     from pandera import config
     config.reset_config_context()
     faults.install(faults.FaultState())
+    install_config_monitor()
     _make_warm()
-    ref = sequential_reference(wl)
+    ref, ref_frames = sequential_reference(wl)
     config.reset_config_context()
     cfg0 = config_fp()
 
@@ -235,6 +290,10 @@ def run_workload(wl, policy_or_rng, want_detail=False):
     containers = "+".join(sorted({_container(wl, c) for c in wl["calls"]}))
     tag = f"{backends}|{containers}|shared={int(shared)}"
 
+    logs = _MON["logs"]
+    interfered = [i for i in range(len(got)) if config_interference(logs.get(("solo", i), []), logs.get(i, []))]
+    ctx = lambda i: "ctx=interfered" if i in interfered else "ctx=clean"  # noqa: E731
+
     mismatch = [i for i in range(len(got)) if got[i] != ref[i]]
     state_changed = [i for i in range(len(subs)) if fps1[i] != fps0[i]]
     if mismatch or state_changed:
@@ -249,8 +308,11 @@ def run_workload(wl, policy_or_rng, want_detail=False):
         if not explained:
             for i in mismatch:
                 c = wl["calls"][i]
-                vio.append((f"outcome|{tag}",
-                            f"call {i} ({_container(wl, c)}, lazy={c['mode']['lazy']}) under the schedule gives {_shape(got[i])}, alone it gives {_shape(ref[i])}"))
+                vio.append((f"outcome|{tag}|{ctx(i)}",
+                            f"call {i} ({_container(wl, c)}, lazy={c['mode']['lazy']}) under the schedule gives {_shape(got[i])}"
+                            f"{' @' + str(got[i].get('where')) if 'where' in got[i] else ''}, alone it gives {_shape(ref[i])}"
+                            f"{' @' + str(ref[i].get('where')) if 'where' in ref[i] else ''}; {ctx(i)}: the call "
+                            f"{'observed' if i in interfered else 'did not observe'} a context configuration it does not observe alone"))
             for i in state_changed:
                 for what in classify(diff_paths(fps0[i], fps1[i], limit=40)):
                     vio.append((f"schema-state|{tag}|{what}", f"schema {i} differs after the concurrent calls at {diff_paths(fps0[i], fps1[i])}"))
@@ -258,10 +320,13 @@ def run_workload(wl, policy_or_rng, want_detail=False):
         vio.append((f"config-state|{tag}|{','.join(sorted(generalise(p) for p in diff_paths(cfg0, cfg1)))}",
                     f"process configuration after join {cfg1} != before {cfg0}"))
         config.reset_config_context()
+    # the caller's frame must be in the state the solo run leaves it in (whether a solo validate may touch its argument at
+    # all is C04's subject, not C07's: the statement here is "exactly what it would have when run alone")
     for i, f in enumerate(frames):
-        if canon_obj(f) != frames0[i]:
-            vio.append((f"caller-data|{tag}", f"frame of call {i} changed (inplace=False)"))
-    return vio, sc, {"ref": ref, "got": got, "tag": tag}
+        if canon_obj(f) != ref_frames[i]:
+            vio.append((f"caller-data|{tag}", f"frame of call {i} after the concurrent run differs from its state after the same call run alone"
+                                              f" (unchanged from input: {canon_obj(f) == frames0[i]})"))
+    return vio, sc, {"ref": ref, "got": got, "tag": tag, "interfered": interfered}
 
 
 def _container(wl, c):
